@@ -1,4 +1,5 @@
 import RpgpProofs.Policy
+import RpgpProofs.Wire
 /-!
 # C15 — version-alignment and criticality rules are enforced on every path
 
@@ -564,5 +565,39 @@ example : verifyPath .data 4 { ver := 4, typ := 0, hashed := [{ id := 101, criti
 example : verifyInline (some ⟨3, 0, 8, 1, 0, 0⟩) 4 { ver := 4, typ := 0 } = false := by decide  -- pub alg 1 ≠ 22
 example : verifyInline (some ⟨3, 0, 8, 22, 0, 0⟩) 4 { ver := 4, typ := 0 } = true := by decide
 example : backsigsPresent d15aWitness = false := by decide
+
+/-! ## "a key accepted through one import path is judged the same through the equivalent path": the
+public part of a key packet is read by two parsers (`public_key_parser.rs`, `secret_key_parser.rs`);
+after repair D15d they are one function of the octets (model: `RpgpModel/Wire.lean`) -/
+
+theorem d15d_repaired : Wire.pubLenExact = true := by decide
+
+/-- for every octet string, the public-key parser and the secret-key parser read the same public key
+(or both refuse) and leave the same octets unread -/
+theorem public_and_secret_key_parsers_agree (trust : Bool) (b : Bytes) :
+    Wire.pubKeyParse trust false b = Wire.pubKeyParse trust true b := by
+  unfold Wire.pubKeyParse
+  rw [d15d_repaired]
+  unfold Wire.pubKeyParseWith
+  simp only [if_true]
+
+/-- a v6 X25519 key packet body (algorithm 25, 32 octets of material) announcing `cnt` octets -/
+def d15dKey (cnt : UInt8) (extra : Bytes) : Bytes :=
+  [6, 0, 0, 0, 1, 25, 0, 0, 0, cnt] ++ List.replicate 32 7 ++ extra
+
+/-- regression witness: before the repair the over-stated count 33 was accepted by the public parser
+and refused by the secret parser (whose window then reaches into the secret part), and the count 0 of a
+key of unknown algorithm by the secret parser only; both refuse both now, and both accept the exact
+count -/
+theorem d15d_witness :
+    (Wire.pubKeyParseWith false false false (d15dKey 33 [])).isSome = true ∧
+    (Wire.pubKeyParseWith false false true (d15dKey 33 [0])).isSome = false ∧
+    (Wire.pubKeyParseWith true false false (d15dKey 33 [])).isSome = false ∧
+    (Wire.pubKeyParseWith true false true (d15dKey 33 [0])).isSome = false ∧
+    (Wire.pubKeyParseWith false false true [6, 0, 0, 0, 1, 99, 0, 0, 0, 0, 0]).isSome = true ∧
+    (Wire.pubKeyParseWith false false false [6, 0, 0, 0, 1, 99, 0, 0, 0, 0, 0]).isSome = false ∧
+    (Wire.pubKeyParseWith true false true [6, 0, 0, 0, 1, 99, 0, 0, 0, 0, 0]).isSome = false ∧
+    (Wire.pubKeyParseWith true false false (d15dKey 32 [])).isSome = true ∧
+    (Wire.pubKeyParseWith true false true (d15dKey 32 [0])).isSome = true := by decide
 
 end Rpgp.C15
